@@ -16,6 +16,7 @@ import (
 	"crypto/sha1"
 	"encoding/hex"
 	"encoding/json"
+	"errors"
 	"sort"
 	"strconv"
 	"strings"
@@ -144,6 +145,10 @@ type fakeServer struct {
 	// beforeExec runs in the caller's goroutine before a command reaches the server (no lock held): a
 	// suite can hold a command back (a gate) to fix the order of commands of different goroutines
 	beforeExec func(cl *fakeClient, cmd []string)
+	// fault: transport faults as the client sees them. 0 = none, 1 = the command never reaches the server,
+	// 2 = the server executes it and the reply is lost. Either way the caller gets a non-Redis error, and -
+	// like singleClient.Do - the fake client re-sends a command that is marked retryable.
+	fault   func(cl *fakeClient, cmd []string) int
 	owner   map[int][]string          // connection id -> the rueidisid: keys it SET (liveness keys; concurrent keepalives may create a spare one)
 }
 
@@ -832,11 +837,33 @@ func newFakeClient(srv *fakeServer, id int, opt rueidis.ClientOption) *fakeClien
 
 func (c *fakeClient) B() rueidis.Builder { return cmds.NewBuilder(cmds.NoSlot) }
 
+var errTransport = errors.New("fake: connection lost")
+
 func (c *fakeClient) Do(ctx context.Context, cmd rueidis.Completed) rueidis.RedisResult {
-	if err := ctx.Err(); err != nil {
-		return mock.ErrorResult(err)
+	for attempt := 0; ; attempt++ {
+		if err := ctx.Err(); err != nil {
+			return mock.ErrorResult(err)
+		}
+		kind := 0
+		if f := c.srv.fault; f != nil {
+			kind = f(c, cmd.Commands())
+		}
+		if kind == 0 {
+			return mock.Result(c.srv.exec(c, ctx, cmd.Commands(), 0, false).msg())
+		}
+		if kind == 2 {
+			c.srv.exec(c, ctx, cmd.Commands(), 0, false) // executed, the reply never arrives
+		}
+		c.srv.mu.Lock()
+		c.srv.hits["transport-fault"]++
+		c.srv.mu.Unlock()
+		if !(&cmd).IsRetryable() || attempt >= 3 {
+			return mock.ErrorResult(errTransport)
+		}
+		c.srv.mu.Lock()
+		c.srv.hits["client-retry"]++
+		c.srv.mu.Unlock()
 	}
-	return mock.Result(c.srv.exec(c, ctx, cmd.Commands(), 0, false).msg())
 }
 
 func (c *fakeClient) DoMulti(ctx context.Context, multi ...rueidis.Completed) []rueidis.RedisResult {
